@@ -100,6 +100,14 @@ def _expand(payload, sub):
             sc['sparse'] = {'step': 'user', 'param': 'row', 'kind': r2.choice(['function', 'lambda', 'method', 'partial', 'callable_obj']),
                             'mode': 'sparse', 'keep': keep, 'marker': 'mksp', 'api': r2.choice(['results', 'datastream']),
                             'wrap': r2.choice(['flat', 'flat', 'nested', 'cond'])}
+    # the same callable object given as a link twice (appended, so that the step indices of the variants stay valid)
+    users = [sp for sp in sc['steps'] if sp['step'] == 'user' and sp.get('param') in ('row', 'rows') and sp.get('mode') in ('inplace', 'newdict')]
+    if users and r2.random() < 0.15:
+        sc['steps'].append(dict(r2.choice(users), step='user_again'))
+    # a second evaluation of the whole chain in the same interpreter (fresh step objects, fresh sources): the outcome of a run
+    # does not depend on which pipelines the process has run before.  Only for chains without effects outside the process.
+    if r2.random() < 0.3 and not any(('dump' in sp['step']) or sp['step'] in ('stream', 'unstream', 'checkpoint') for sp in sc['steps']):
+        sc['again'] = r2.choice(['results', 'datastream'])
     return sc
 
 
@@ -184,6 +192,12 @@ def _links_of_tree(tree, sc, env):
 
 
 def _run_variant(payload, sub):
+    if payload.get('twice'):
+        _run_variant_once(payload, sub)
+    return _run_variant_once(payload, sub)
+
+
+def _run_variant_once(payload, sub):
     import dataflows as DF
     from datapackage import Package
     from ..core.ctx import jsonable
@@ -285,7 +299,7 @@ class C01(Prop):
     REAL_VS_STUB = {'real': ['everything under dataflows/ that the pipeline touches'], 'stub': ['none (the schedule is chosen by how the harness groups and drains the real generators)']}
     PROBES = ['refused-user-callable-retested', 'user-bound-method', 'user-partial', 'user-callable-obj', 'user-lambda', 'user-function', 'crossed-inference-sample', 'nested-depth>=2', 'conditional-wrapped',
               'barrier-after-sources', 'api-process', 'api-datastream', 'both-raise-discard', 'uninterpretable-link', 'one-shot-source', 'nested-in-place-edit',
-              'row-callable-returns-new-row', 'row-callable-returns-empty-row']
+              'row-callable-returns-new-row', 'row-callable-returns-empty-row', 'second-evaluation-in-one-interpreter', 'same-callable-object-twice']
     TIERS = {'quick': dict(runs=500, wall=100, run_wall=300),
              'thorough': dict(runs=15000, wall=1700, run_wall=600)}
     SHRINK_FROZEN = ('fields', 'gen_stats')
@@ -327,6 +341,8 @@ class C01(Prop):
                 ctx.probe({'method': 'user-bound-method', 'partial': 'user-partial', 'callable_obj': 'user-callable-obj', 'lambda': 'user-lambda', 'function': 'user-function'}[sp['kind']])
         if any(len(t['rows']) > 100 for t in sc['tables']):
             ctx.probe('crossed-inference-sample')
+        if any(sp['step'] == 'user_again' for sp in sc['steps']):
+            ctx.probe('same-callable-object-twice')
         if any(sp['step'] == 'nested_edit' for sp in sc['steps']):
             ctx.probe('nested-in-place-edit')
 
@@ -422,6 +438,17 @@ class C01(Prop):
             elif lz['status'] == 'ok':
                 ctx.violation('one-side-raises', 'serial-raises', 'serial (step-by-step) evaluation raises %s but the lazy run returns normally; steps=%s' % (
                     json.dumps(sr.get('exc'))[:300], json.dumps(sc2['steps'])[:600]), variant='sparse')
+        if sc.get('again') and not any(('dump' in sp['step']) or sp['step'] in ('stream', 'unstream', 'checkpoint') for sp in sc['steps']):
+            ctx.probe('second-evaluation-in-one-interpreter')
+            ag = ctx.subrun(_run_variant, {'sc': sc, 'variant': {'segments': [list(range(n))], 'api': sc['again']}, 'twice': True})
+            if ag['status'] != 'ok':
+                ctx.violation('one-side-raises', 'second-evaluation-raises', 'step-by-step evaluation succeeds but the second lazy evaluation of the same chain in one interpreter '
+                              '(fresh step objects and sources) raises %s; steps=%s' % (json.dumps(ag.get('exc'))[:400], json.dumps(sc['steps'])[:600]), variant='again')
+            want = refv['cast'] if sc['again'] == 'results' else refv['rows']
+            if ag['value']['dp'] != refv['dp'] or (want is not None and ag['value']['rows'] != want):
+                ctx.violation('schedule-equivalence:history', 'differ', 'the second lazy evaluation of the same chain in one interpreter (fresh step objects and sources) differs from '
+                              'step-by-step evaluation: %s; descriptor %s vs %s; steps=%s' % (first_diff(ag['value']['rows'], want) if want is not None else '-',
+                                                                                       json.dumps(ag['value']['dp'])[:400], json.dumps(refv['dp'])[:400], json.dumps(sc['steps'])[:600]), variant='again')
         if pending:
             c, k, m, d = pending[0]
             ctx.violation(c, k, m, **d)
